@@ -339,7 +339,29 @@ func (d *bdrv) waitStarted(m *lmon) int {
 
 func (d *bdrv) finish(m *lmon, plain bool) int {
 	if plain {
-		return m.waitL(lineWaitLimit, 0, nil, func() bool { return m.closed })
+		start := time.Now()
+		for {
+			r := m.waitL(4*time.Second, 0, nil, func() bool { return m.closed })
+			if r != wTimeout {
+				return r
+			}
+			// not closed yet: is it structurally impossible that it ever will be? (two looks, one second apart)
+			if ev, ok := tailEndStuck(); ok {
+				time.Sleep(time.Second)
+				ev2, ok2 := tailEndStuck()
+				m.mu.Lock()
+				closed := m.closed
+				if ok2 && !closed {
+					m.fail("no-end-after-removal", fmt.Sprintf("every followed file was removed after its data had been delivered, but the batch channel is never closed: %s (second look: %s)", ev, strings.SplitN(ev2, "\n", 2)[0]))
+					m.mu.Unlock()
+					return wBad
+				}
+				m.mu.Unlock()
+			}
+			if time.Since(start) > lineWaitLimit {
+				return wTimeout
+			}
+		}
 	}
 	// still following (re-open): end the reader goroutines at their next hook point
 	d.ending.Store(true)
